@@ -14,6 +14,17 @@ def bad_statements(rng):
         ("non-Boolean condition", f"let {v}: u8 = if 7u8 {{ 1u8 }} else {{ 2u8 }};"),
         ("unknown identifier", f"let {v}: u8 = undefined_identifier_{v};"),
         ("out-of-scope identifier", f"{{ let inner_{v}: u8 = 1u8; }} let {v}: u8 = inner_{v};"),
+        ("identifier of an earlier match arm", f"let {v}: u8 = match (true, 1u8) {{ (true, arm_{v}) => arm_{v}, (false, _) => arm_{v} }};"),
+        ("identifier of a later match arm", f"let {v}: u8 = match (true, 1u8) {{ (true, _) => arm_{v}, (false, arm_{v}) => arm_{v} }};"),
+        ("identifier of a match arm after the match", f"let {v}: u8 = match 1u8 {{ arm_{v} => arm_{v} }}; let w_{v}: u8 = arm_{v};"),
+        ("identifier of an if branch in the else branch", f"let {v}: u8 = if true {{ let br_{v}: u8 = 1u8; br_{v} }} else {{ br_{v} }};"),
+        ("identifier of an if branch after the if", f"if true {{ let br_{v}: u8 = 1u8; }} let {v}: u8 = br_{v};"),
+        ("loop variable after the loop", f"for it_{v} in [1u8, 2u8] {{ let w_{v}: u8 = it_{v}; }} let {v}: u8 = it_{v};"),
+        ("loop body binding after the loop", f"for it_{v} in [1u8, 2u8] {{ let w_{v}: u8 = it_{v}; }} let {v}: u8 = w_{v};"),
+        ("join loop variable after the loop", f"for (ja_{v}, jb_{v}) in join([(1u8, 2u8)], [(1u8, 3u8)]) {{ let w_{v}: u8 = ja_{v}.1; }} let {v}: u8 = jb_{v}.1;"),
+        ("identifier of a block expression after it", f"let {v}: u8 = {{ let bl_{v}: u8 = 1u8; bl_{v} }} + bl_{v};"),
+        ("identifier of an enum arm in another arm", f"let {v}: u8 = match (1u8, 2u8) {{ (0u8, p_{v}) => p_{v}, (q_{v}, _) => p_{v} }};"),
+        ("use before definition", f"let {v}: u8 = later_{v}; let later_{v}: u8 = 1u8;"),
         ("assignment to immutable binding", f"let {v}: u8 = 1u8; {v} = 2u8;"),
         ("assignment of a wrong type", f"let mut {v}: u8 = 1u8; {v} = true;"),
         ("index of a wrong type", f"let {v}: u8 = [1u8, 2u8][true];"),
